@@ -5,14 +5,23 @@
    exhaustively (state dump = inputs of the real helper) and checks the sanity of the two
    readings of the relation on every string: the normal form is itself a "safe" result, is a
    fixed point, and is the only safe result without blanks/upper case outside strings. *)
-EXTENDS DataUri, TLC
+EXTENDS MtMachine, TLC
 CONSTANTS MaxLen, Alphabet
-VARIABLE s
-Init == s = <<>>
-Next == Len(s) < MaxLen /\ \E c \in Alphabet : s' = Append(s, c)
-Spec == Init /\ [][Next]_s
-NextSim == Len(s) < MaxLen /\ s' = Append(s, RandomElement(Alphabet))
-SpecSim == Init /\ [][NextSim]_s
+VARIABLES s, known            \* known = s is an input construct of a pinned finding (dumped with s)
+vars == <<s, known>>
+Init == s = <<>> /\ known = FALSE
+Next == Len(s) < MaxLen /\ \E c \in Alphabet : s' = Append(s, c) /\ known' = Known(Append(s, c))
+Spec == Init /\ [][Next]_vars
+NextSim == Len(s) < MaxLen /\ LET c == RandomElement(Alphabet) IN s' = Append(s, c) /\ known' = Known(Append(s, c))
+SpecSim == Init /\ [][NextSim]_vars
+
+(* design models of the helper (MtMachine): the as-is transcription keeps its indices inside the
+   buffer, violates the relation only on the Known constructs, and the proposed repair satisfies
+   the relation everywhere *)
+AsIsIndexSafe == AsIsRun(s).safe
+AsIsOKOutsideKnown == ~MediatypeOK(s, AsIs(s)) => known
+FixedOK == MediatypeOK(s, Fixed(s))
+FixedIdem == Fixed(Fixed(s)) = Fixed(s)
 
 NormalFormSafe == MtSafe(s, MtExpected(s)) /\ MediatypeOK(s, MtExpected(s))
 NormalFormFixed == MtExpected(MtExpected(s)) = MtExpected(s)
